@@ -502,3 +502,119 @@ def undischarged_ranges(f):
             out.append((c.bb, c.line, 'bound %s%s, length %s' % (bs, ' (inclusive)' if incl else '', lsig)))
             break
     return out, n
+
+
+_ARITH = re.compile(r'saturating_|wrapping_|checked_|::len$|::min$|::max$|::from$|::into$|try_from$|::unwrap\w*$|::expect$|Try>::branch$|from_residual$')
+
+
+def size_policies(f):
+    """comparisons `data-derived size  <,>  bound` where the bound is made of constants (and other lengths) only — a size policy
+    of this function, as opposed to a comparison with the file length, a configured field or a parameter, or format arithmetic
+    with small constants (< 64). Returns [(line, op, frozenset(constant strings))]."""
+    out = []
+    defs = A.Defs(f)
+    for i, b in enumerate(f.bbs):
+        if b['cleanup'] or b['t'][0] != 'sw':
+            continue
+        l = switch_local(f, i)
+        d = A.single_def(defs, l) if l is not None else None
+        if not d or d[2] != 'st' or d[3][1][0] != 'bin' or d[3][1][1] not in ('Gt', 'Ge', 'Lt', 'Le'):
+            continue
+        rv = d[3][1]
+        for si, oi in ((2, 3), (3, 2)):
+            S = A.backward_slice(f, [rv[si]], defs)
+            if not (any(re.search(r'from_(le|be|ne)_bytes$|::len$', x) for x in S.calls) or val_sig(f, defs, rv[si])[0] == 'len'):
+                continue
+            O = A.backward_slice(f, [rv[oi]], defs)
+            # a bound may depend on the length of another buffer (a ratio policy), not on a scalar / config parameter
+            scalar_params = [p_ for p_ in O.params if not re.search(r'\[|Vec<|str\b|Bytes', f.locals[p_])]
+            if O.fields or scalar_params or [x for x in O.calls if not _ARITH.search(x)]:
+                continue
+            consts = set(O.consts)
+            if rv[oi][0] == 'k':
+                consts.add(rv[oi][1])
+            big = set()
+            for k in consts:
+                v = A._const_val(k)
+                if v is None or (isinstance(v, int) and v >= 64):
+                    big.add(k)
+            if big:
+                out.append((d[3][2] if len(d[3]) > 2 else f.line, rv[1], frozenset(big)))
+                break
+    return out
+
+
+def reader_only_policies(reader_fns, writer_fns):
+    """size policies applied by a reader that no writer applies (matched by the constants involved)"""
+    wconsts = set()
+    for g in writer_fns:
+        for (_, _, cs) in size_policies(g):
+            wconsts |= set(cs)
+    out = []
+    n = 0
+    for g in reader_fns:
+        for (line, op, cs) in size_policies(g):
+            n += 1
+            if not (set(cs) & wconsts):
+                out.append((g, line, op, sorted(cs)))
+    return out, n
+
+
+def _indexed_bases(f, defs, op, depth=0, seen=None):
+    """buffers an operand was read from by indexing (`buf[i]`), following copies and references"""
+    out = set()
+    if op[0] == 'k' or depth > 8:
+        return out
+    seen = seen if seen is not None else set()
+    l, proj = op[1][0], op[1][1]
+    if any(isinstance(p_, str) and p_.startswith('[') for p_ in proj):
+        base_proj = []
+        for p_ in proj:
+            if isinstance(p_, str) and p_.startswith('['):
+                break
+            base_proj.append(p_)
+        out.add(_buffer_root(f, defs, ['c', [l, base_proj]]))
+        return out
+    if l in seen:
+        return out
+    seen.add(l)
+    for (_, _, k, p) in defs.defs.get(l, []):
+        if k == 'st':
+            rv = p[1]
+            if rv[0] == 'ref':
+                out |= _indexed_bases(f, defs, ['c', rv[1]], depth + 1, seen)
+            elif rv[0] in ('use', 'cast'):
+                out |= _indexed_bases(f, defs, rv[1], depth + 1, seen)
+        elif k == 'call' and re.search(r'Index(Mut)?<.*>>::index(_mut)?$|::get_unchecked$', p.resolved) and p.args:
+            out.add(_buffer_root(f, defs, p.args[0]))
+    return out
+
+
+def merge_compare_sites(f):
+    """ordering comparisons (cmp / < / >) between an element of one integer buffer and an element of another — the two-cursor
+    merge shape, which is only correct on sorted inputs. Returns [(line, baseA, baseB, sortedA, sortedB)]."""
+    out = []
+    defs = A.Defs(f)
+    sorts = set()
+    for c in A.calls(f):
+        if re.search(r'::(sort|sort_unstable|sort_by|sort_by_key|sort_unstable_by|sort_unstable_by_key)$', c.resolved) and c.args:
+            sorts.add(_buffer_root(f, defs, c.args[0]))
+    cands = []
+    for i, b in enumerate(f.bbs):
+        if b['cleanup']:
+            continue
+        for st in b['s']:
+            rv = st[1]
+            if rv[0] == 'bin' and rv[1] in ('Lt', 'Gt', 'Le', 'Ge'):
+                cands.append((st[2], rv[2], rv[3]))
+        t = b['t']
+        if t[0] == 'call':
+            c = A.Call(i, t)
+            if re.search(r'Ord for u(64|32|size)>::cmp$|PartialOrd for u(64|32|size)>::(partial_cmp|lt|gt|le|ge)$', c.resolved) and len(c.args) >= 2:
+                cands.append((c.line, c.args[0], c.args[1]))
+    for (line, x, y) in cands:
+        bx, by = _indexed_bases(f, defs, x), _indexed_bases(f, defs, y)
+        if bx and by and not (bx & by):
+            a_, b_ = sorted(bx)[0], sorted(by)[0]
+            out.append((line, a_, b_, a_ in sorts, b_ in sorts))
+    return out
